@@ -271,6 +271,24 @@ class Ctx:
         self.hits.append({"what": what, "input": inp, "detail": detail, "tags": list(tags)})
 
 
+def sources_changed(pid):
+    """Anchor files of this property whose content differs from fingerprints.json (informational)."""
+    try:
+        fp = json.load(open(os.path.join(VERIF, "fingerprints.json"))).get(pid, {})
+    except Exception:
+        return None
+    changed = []
+    for f, h in sorted(fp.items()):
+        path = os.path.join(REPO, f)
+        try:
+            now = hashlib.sha256(open(path, "rb").read()).hexdigest()
+        except OSError:
+            now = "missing"
+        if now != h:
+            changed.append(f)
+    return changed
+
+
 def finish(ctx, spec):
     """Classify, write evidence and replay, print lines, return exit code."""
     known = [k for k in load_known() if k.get("property") == ctx.pid and k.get("status") == "known"]
@@ -321,6 +339,7 @@ def finish(ctx, spec):
             "exhaustive": False,
             "known_findings_reproduced": {k: len(v[1]) for k, v in listed.items()},
             "notes": ctx.notes,
+            "anchor_sources_changed_since_model_validated": sources_changed(ctx.pid),
         }
     )
     ev = {
